@@ -58,6 +58,7 @@ def gen_cases(rng, tier):
     cases += [gen_iter_case(rng, 2) for _ in range(n_k)]
     cases += [gen_iter_case(rng, rng.choice([1, 3, 4])) for _ in range(n_k)]
     cases += [gen_flx_case(rng) for _ in range(80 if tier == 'quick' else 1200)]
+    cases += [gen_iqsite_case(rng) for _ in range(24 if tier == 'quick' else 200)]
     return cases
 
 # ---- the temperature domain of the bubble / dew point objects (equilibrium/domain.py) and what it does to a T,P flash
@@ -417,7 +418,71 @@ def coq_flx(case, out):
     return (f'(C04.Flx.flx_check {q(c[0])} {q(c[1])} {q(c[2])} {q(c[3])} {cfg} {cnat(case["maxiter"])} {q(case["x0"])} {q(case["x1"])} '
             f'{oy0} {oy1} {copt(case["guess"], q)} {exp})')
 
+# ---- the real IQ_interpolation calls made by vle.py (V / H / S specifications on database chemicals): arguments against the
+#      model's call-site table, the recorded residual against the Flx model
+SITE_MIX = [{'Water': 30., 'Ethanol': 10.}, {'Water': 5., 'Ethanol': 10., 'Methanol': 4.}, {'Ethanol': 8., 'Methanol': 8.},
+            {'Water': 20., 'Methanol': 5.}, {'Water': 12., 'Ethanol': 3., 'Methanol': 9.}]
+def gen_iqsite_case(rng):
+    mix = rng.choice(SITE_MIX); n = len(C03.IDS)
+    l = [0.] * n; g = [0.] * n
+    scale = rng.choice([1., 0.5, 4.])
+    for k, v in mix.items():
+        fr = rng.choice([0., 0.25, 1., 0.5]); i = C03.IDS.index(k)
+        l[i] = v * scale * (1 - fr); g[i] = v * scale * fr
+    sk = rng.choice(['TV', 'PV', 'PV', 'TH', 'TS', 'PH', 'PS'])
+    spec = {'T': rng.choice([340., 350., 355., 360.])} if sk[0] == 'T' else {'P': rng.choice([101325., 50000., 202650.])}
+    spec[sk[1]] = rng.choice([0.5, 0.25, 0.75, 0.125, 0.875]) if sk[1] == 'V' else ['frac', rng.choice([0.25, 0.5, 0.75, 0.375])]
+    return {'kind': 'iqsite', 'mode': 'real', 'phases': 'lg', 'l': l, 'g': g, 's': [0.] * n, 'spec': spec, 'sk': sk,
+            'T0': 298.15, 'P0': 101325., 'co': None, 'draws': []}
+
+def run_iqsite(case):
+    import types, flexsolve
+    e = C03.env(); vm = e['vm']
+    s = C03.build_stream(case); spec = C03.resolve_spec(case, s)
+    calls = []
+    def IQ(f, x0, x1, y0=None, y1=None, x=None, xtol=0., ytol=5e-8, args=(), maxiter=50, checkroot=False, checkiter=True, checkbounds=True):
+        rec = {'x0': float(x0), 'x1': float(x1), 'y0': None if y0 is None else float(y0), 'y1': None if y1 is None else float(y1),
+               'guess': None if x is None else float(x), 'xtol': float(xtol), 'ytol': float(ytol), 'maxiter': int(maxiter),
+               'checkroot': bool(checkroot), 'checkiter': bool(checkiter), 'checkbounds': bool(checkbounds), 'pts': []}
+        def g(pt, *a):
+            y = f(pt, *a); rec['pts'].append([float(pt), float(y)]); return y
+        ret = flexsolve.IQ_interpolation(g, x0, x1, y0, y1, x, xtol, ytol, args, maxiter=maxiter, checkroot=checkroot, checkiter=checkiter, checkbounds=checkbounds)
+        rec['ret'] = float(ret); calls.append(rec)
+        return ret
+    p = C03.Patches()
+    p.set(vm, 'flx', types.SimpleNamespace(IQ_interpolation=IQ, aitken=flexsolve.aitken))
+    try:
+        kw = {k: (np.array(v) if isinstance(v, list) else v) for k, v in spec.items()}
+        try: s.vle(**kw); err = None
+        except Exception as ex: err = type(ex).__name__
+    finally:
+        p.undo()
+    out = {'calls': calls, 'err': err}
+    ill = False
+    for r in calls:
+        ys = [y for _, y in r['pts']]
+        sc_ = max(1., abs(r['y0'] or 0.), abs(r['y1'] or 0.))
+        ill = ill or r['y0'] is None or r['y1'] is None or any(abs(y) < 1e-9 * sc_ or abs(abs(y) - r['ytol']) < 1e-9 * sc_ for y in ys[:-1])
+        # the recorded residual must be a function of its argument for the table to stand for it
+        seen = {}
+        for x_, y_ in r['pts']:
+            if x_ in seen and abs(seen[x_] - y_) > 1e-9 * sc_: ill = True
+            seen[x_] = y_
+    out['ill'] = ill
+    return out
+
+def coq_iqsite(case, out):
+    if out['ill'] or not out['calls']: return 'true'
+    terms = []
+    for r in out['calls']:
+        cfg = f'(mkiqcfg {q(r["xtol"])} {q(r["ytol"])} {cbool(r["checkroot"])} {cbool(r["checkiter"])} {cbool(r["checkbounds"])})'
+        tab = clist(r['pts'], lambda pv: f'({q(pv[0])}, {q(pv[1])})')
+        terms.append(f'(C04.Flx.iqsite_check Site{case["sk"]} {cfg} {cnat(r["maxiter"])} {q(r["x0"])} {q(r["x1"])} {q(r["y0"])} {q(r["y1"])} '
+                     f'{copt(r["guess"], q)} {tab} {q(r["ret"])} {cnat(len(r["pts"]))})')
+    return '(' + ' && '.join(terms) + ')'
+
 def run_impl(case):
+    if case['kind'] == 'iqsite': return run_iqsite(case)
     if case['kind'] == 'flx': return run_flx(case)
     if case['kind'] == 'dom': return run_dom(case)
     if case['kind'] == 'rr2':
@@ -439,6 +504,7 @@ def run_impl(case):
 def coq_case(case, out):
     if case['kind'] == 'dom': return coq_dom(case, out)
     if case['kind'] == 'flx': return coq_flx(case, out)
+    if case['kind'] == 'iqsite': return coq_iqsite(case, out)
     if case['kind'] == 'xpkg':
         return coq_xpkg(case, out)
     if case['kind'] in ('it2', 'itn'):
@@ -458,6 +524,7 @@ def coq_show(case, out):
     return C03.coq_show(case, out) if case['kind'] == 'vle' else 'tt'
 
 def nontrivial(case, out):
+    if case['kind'] == 'iqsite': return bool(out['calls']) and not out['ill']
     if case['kind'] == 'flx': return not out['ill'] and out['calls'] >= 3
     if case['kind'] == 'dom': return len(set(out['tmaxs'])) >= 2 or len(set(out['tmins'])) >= 2
     if case['kind'] == 'vleh': return C03.nontrivial(case, out)
@@ -467,6 +534,8 @@ def nontrivial(case, out):
     return C03.nontrivial(case, out) or (out['init']['T'], out['init']['P']) != (out['final']['T'], out['final']['P'])
 
 def classify(case, out):
+    if case['kind'] == 'iqsite':
+        return ['iqsite:' + case['sk'] + ':' + ('no solver call (single phase / boundary branch)' if not out['calls'] else 'residual not a function of X or at rounding level (not compared)' if out['ill'] else 'solver call compared')]
     if case['kind'] == 'flx':
         return ['flx:' + ('rounding-level residual (not compared)' if out['ill'] else out['err'] or ('returned after %s evaluations' % ('1-3' if out['calls'] <= 3 else '4-8' if out['calls'] <= 8 else '9+')))]
     if case['kind'] == 'dom': return ['dom:' + ('database chemicals' if case['real'] else 'stand-in limits')]
